@@ -352,3 +352,39 @@ def stage_limits(wd, V, rng, tier):
         finally:
             cl.stop()
     return runs
+
+
+def stage_tail_stall(wd, V, tier="quick"):
+    """the real dcat binary, serverless, plain mode: a consumer that stops reading for 6.5 s just before the end - the server
+    side has handed everything over (its queues are empty, it gives up waiting for the close handshake after 5 s) while the
+    client still holds a 300 kB last line it cannot write; the output must nevertheless be complete"""
+    import subprocess
+    base = os.path.join(wd, "e2e-tailstall")
+    os.makedirs(base, exist_ok=True)
+    if "dcat" not in _BINS or not os.path.exists(_BINS["dcat"]):
+        _BINS["dcat"] = vlib.go_build(wd, "./cmd/dcat", os.path.join(base, "dcat"), tags="")
+    exe = _BINS["dcat"]
+    for final_nl in ((True,) if tier == "quick" else (True, False)):
+        data = b"".join(b"short line %03d\n" % i for i in range(20)) + b"L" * 300000 + (b"\n" if final_nl else b"")
+        path = os.path.join(base, "tailstall.log")
+        open(path, "wb").write(data)
+        p = subprocess.Popen([exe, "--plain", "--cfg", "none", "--logDir", os.path.join(base, "log"), "--files", path],
+                             stdin=subprocess.DEVNULL, stdout=subprocess.PIPE, stderr=subprocess.PIPE, env=vlib.goenv(), bufsize=0)
+        got = os.read(p.stdout.fileno(), 1000)     # unbuffered: communicate() below reads the same descriptor
+        time.sleep(6.5)
+        try:
+            rest, err = p.communicate(timeout=60)
+        except subprocess.TimeoutExpired:
+            p.kill()
+            rest, err = p.communicate()
+            V.violation("dcat did not terminate after a consumer stall at the end of the file", {"final_newline": final_nl})
+            continue
+        got += rest
+        want = data if final_nl else data + b"\n"
+        if got not in (data, want) or p.returncode != 0:
+            V.violation("a consumer stalling 6.5 s just before the end of the output: %d of %d bytes arrived, exit status %d" % (len(got), len(data), p.returncode),
+                        {"final_newline": final_nl, "tail": repr(got[-40:]), "stderr": err[-300:].decode(errors="replace")})
+        if V.violations:
+            break
+
+
